@@ -46,6 +46,12 @@ pub enum PeerOp {
     /// well-formed packet with explicit fields relative to the connection
     /// (type, seq offset from next_seq, ack offset from highest seen, wnd, sack, conn-id delta, payload len)
     Crafted { ptype: u8, dseq: i16, dack: i16, wnd: u32, sack: Option<Vec<u8>>, did: i8, len: u16 },
+    /// honest selective ack: advance the cumulative ack by `adv` (leaving at least one packet missing) and
+    /// report `count` packets, `skip` packets beyond the missing one, as held — only packets the socket
+    /// really sent. Falls back to a plain ack when fewer than two packets are outstanding.
+    SackHeld { adv: u16, skip: u8, count: u8, wnd: u32 },
+    /// like Data, but acknowledging everything seen from the socket (its FIN included)
+    DataAck { dseq: i16, len: u16 },
     /// a Crafted packet whose encoding is then damaged: bytes overwritten, first-extension byte forced,
     /// junk appended, truncated
     Mangled { base: Box<PeerOp>, flips: Vec<(u16, u8)>, first_ext: Option<u8>, append: Vec<u8>, trunc: Option<u16> },
@@ -560,6 +566,25 @@ pub fn run(case: &SpCase, trace: bool) -> SpResult {
                         }
                         peer.send(p);
                     }
+                    PeerOp::DataAck { dseq, len } => {
+                        let seq = peer.next_seq.wrapping_add(*dseq as u16);
+                        if peer.fin_seqs.iter().any(|f| dist(seq, *f) >= 0) {
+                            res.skipped_data_ops += 1;
+                            settle().await;
+                            continue;
+                        }
+                        let len = *peer.lens.entry(seq).or_insert((*len).max(1));
+                        res.peer_data_sent.push((net.log_len(), seq));
+                        let mut p = peer.base(refparse::ST_DATA);
+                        p.seq = seq;
+                        p.ack = peer.ack_base(expected_sock_first);
+                        peer.last_ack = p.ack;
+                        p.payload = peer_payload(peer.key, seq, len as usize);
+                        if *dseq == 0 {
+                            peer.next_seq = peer.next_seq.wrapping_add(1);
+                        }
+                        peer.send(p);
+                    }
                     PeerOp::Ack { back, wnd, sack } => {
                         let mut p = peer.base(refparse::ST_STATE);
                         p.ack = peer.ack_base(expected_sock_first).wrapping_sub(*back as u16);
@@ -580,6 +605,29 @@ pub fn run(case: &SpCase, trace: bool) -> SpResult {
                         p.wnd = *wnd;
                         if let Some(s) = sack {
                             p.exts.push((1, s.clone()));
+                        }
+                        peer.last_ack = p.ack;
+                        peer.last_wnd = *wnd;
+                        peer.last_pure_ack = Some(p.clone());
+                        peer.send(p);
+                    }
+                    PeerOp::SackHeld { adv, skip, count, wnd } => {
+                        let mut p = peer.base(refparse::ST_STATE);
+                        let high = peer.ack_base(expected_sock_first);
+                        let room = dist(high, peer.last_ack).max(0);
+                        let new_ack = peer.last_ack.wrapping_add((*adv as i32).min((room - 2).max(0)) as u16);
+                        let avail = dist(high, new_ack) - 1; // packets new_ack+2 ..= high
+                        p.ack = new_ack;
+                        p.wnd = *wnd;
+                        if avail > 0 {
+                            let first = (*skip as i32).min(avail - 1);
+                            let cnt = (*count as i32).max(1).min(avail - first);
+                            let nbytes = if first + cnt > 32 { 8 } else { 4 };
+                            let mut bits = vec![0u8; nbytes];
+                            for i in first..(first + cnt).min(nbytes as i32 * 8) {
+                                bits[(i / 8) as usize] |= 1 << (i % 8);
+                            }
+                            p.exts.push((1, bits));
                         }
                         peer.last_ack = p.ack;
                         peer.last_wnd = *wnd;
